@@ -120,7 +120,8 @@ func runDriver(driver, sub string, cases []Case) ([][]string, error) {
 			in.WriteByte('\n')
 		}
 	}
-	cmd := exec.Command(driver, sub)
+	_ = sub
+	cmd := exec.Command(driver)
 	cmd.Stdin = &in
 	var stdout, stderr bytes.Buffer
 	cmd.Stdout = &stdout
@@ -241,7 +242,7 @@ func Main(p Prop) {
 	evidence := flag.String("evidence", "", "evidence file to write")
 	known := flag.String("known", "/verif/known-findings.json", "known findings")
 	replay := flag.String("replay", "", "replay file to re-run")
-	driver := flag.String("driver", "/verif/lean/.lake/build/bin/tmdriver", "tmdriver path")
+	driver := flag.String("driver", "/verif/lean/.lake/build/bin/tmdriver-"+p.Driver, "model driver executable")
 	corpus := flag.String("corpus", "", "corpus dir")
 	outDir := flag.String("replays", "/verif/replays", "where replay files go")
 	flag.Parse()
